@@ -896,6 +896,15 @@ func (l Linter) lintWithRegoRules(
 	case err := <-errCh:
 		return report.Report{}, fmt.Errorf("error encountered in rule evaluation %w", err)
 	case <-doneCh:
+		// all workers are done at this point, and any error they encountered has been sent
+		// to the (buffered) error channel. As select picks randomly among the ready cases,
+		// make sure that an error is never dropped in favor of an incomplete report
+		select {
+		case err := <-errCh:
+			return report.Report{}, fmt.Errorf("error encountered in rule evaluation %w", err)
+		default:
+		}
+
 		return regoReport, nil
 	}
 }
